@@ -15,7 +15,7 @@
      cook_conflicts       -> the conflict list (type, file id)
    The text merge (merge3.Merge3 / PlanWeaveMerge, outside /repo) is the Section variable [tm].
    transform.resolve_conflicts (file-system conflicts: duplicate, missing parent, parent loop ...) is
-   NOT modelled: [wf_result] says when the raw result is a well-formed tree, [run_case] answers
+   NOT modelled: [wf_tree] says when the raw result is a well-formed tree, [run_case] answers
    "fs-conflict" otherwise and the driver projects the implementation's observation the same way.
    No proofs here. *)
 From Coq Require Import List Bool Arith NArith String.
@@ -301,10 +301,12 @@ Definition wf_tree (U : list nat) (R : tree) : bool :=
                                 end) U
     end) U.
 
-(* TreeTransform.apply raises NoFinalPath (candidate finding, notes/C17.md): some entry was given a new
-   name inside a directory p that has no name in the transform (not in THIS, not adjusted by the merge)
-   while nothing with contents lives in p (so that no "missing parent" conflict names it either) *)
-Definition no_final_path (U : list nat) (adj : nat -> option (nat * bytes)) (T R : tree) : bool :=
+(* OLD behaviour (before /repo bbc9cee; finding C17-nofinalpath-crash, fixed): TreeTransform.apply raised
+   NoFinalPath when some entry was given a new name inside a directory p that has no name in the transform
+   (not in THIS, not adjusted by the merge) while nothing with contents lives in p.  Since the repair such an
+   unversioned, content-less trans_id is ignored by _inventory_altered and the merge simply reports the path
+   conflict, which is what [merge_entry] computes anyway.  Kept only as documentation; not used by [run_case]. *)
+Definition no_final_path_old (U : list nat) (adj : nat -> option (nat * bytes)) (T R : tree) : bool :=
   existsb (fun f =>
     match adj f with
     | Some (p, _) =>
@@ -350,8 +352,6 @@ Definition run_case (lm : bool) (tab : list ((bytes * bytes * bytes) * (bytes * 
   let '(R, cs) := merge_tree (tm_table tab) lm unmod U
                              (alookup B) (map alookup Ls) (alookup O) (alookup T) in
   if existsb is_assert cs then OE "AssertionError"%string
-  else if no_final_path U (adj_of (tm_table tab) lm unmod U (alookup B) (map alookup Ls) (alookup O) (alookup T))
-                        (alookup T) R then OE "NoFinalPath"%string
   else if negb (wf_tree U R) then OT "fs-conflict"%string
   else OL [OL (flat_map (fun f => match R f with Some e => [entry_obs f e] | None => [] end) U);
            OL (map conflict_obs cs)].
